@@ -436,6 +436,22 @@ def run_serial_case(case):
     check('jsons', via_jsons)
     check('pickle', via_pickle)
     check('python-source', via_source)
+    # the model-building variant of the same grammar (compile(asmodel=True)) must survive pickling too
+    try:
+        clear_caches()
+        ma = tatsu.compile(case['ebnf'], name=case.get('name'), asmodel=True)
+        ref_a = behaviour(ma, case['texts'])
+        try:
+            mb = pickle.loads(pickle.dumps(ma))
+            bb = behaviour(mb, case['texts'])
+            for t, x, y in zip(case['texts'], ref_a, bb):
+                if x != y:
+                    P.append(f'pickle of the asmodel=True model: behaviour differs on {t!r}: original {x} reloaded {y}')
+                    break
+        except Exception as e:  # noqa: BLE001
+            P.append(f'pickle of the asmodel=True model: reload raised {type(e).__name__}: {str(e)[:160]}')
+    except Exception:  # noqa: BLE001
+        pass
     # converting parse results to JSON
     try:
         from tatsu.util.asjson import asjson
